@@ -237,7 +237,8 @@ def build(spec):
 def tables_equal(a, b):
     """Returns (equal, n_tie_cells, detail)."""
     ties = 0
-    for k in a:
+    unit_ties = {}  # column -> number of unit rows that differ by one vote (a rounding tie of x.5)
+    for k in sorted(a, key=lambda t: t != "unit_data"):  # units first: a group value is a sum of unit values
         if k not in b or list(a[k].columns) != list(b[k].columns) or a[k].shape != b[k].shape:
             return False, ties, f"table {k} differs in shape/columns"
         for c in a[k].columns:
@@ -245,8 +246,13 @@ def tables_equal(a, b):
             if va.dtype.kind in "fiu":
                 d = np.abs(va.astype(float) - vb.astype(float))
                 if np.nanmax(d) if len(d) else 0:
-                    if np.nanmax(d) <= 1.0:
+                    # a unit cell may differ by one vote (rounding of x.5 after a solve that is equal up to solver
+                    # accuracy); a group cell by at most as many votes as unit cells of that column differ
+                    allowed = 1.0 if k == "unit_data" else float(max(1, unit_ties.get(c, 0)))
+                    if np.nanmax(d) <= allowed:
                         ties += int((d > 0).sum())
+                        if k == "unit_data":
+                            unit_ties[c] = int((d > 0).sum())
                     else:
                         return False, ties, f"{k}.{c} differs by {np.nanmax(d)}"
             else:
